@@ -247,7 +247,7 @@ static int run_once(struct vs_explore *e, const uint8_t *prefix, int plen,
         sched[len] = (uint8_t)t;
         len++;
         cur_len = len;
-        vs_step(t);
+        if (e->step) e->step(e->ctx, t); else vs_step(t);
         if (e->after_step) e->after_step(e->ctx, t);
         last = t;
     }
@@ -333,7 +333,7 @@ int vs_random(struct vs_explore *e, uint64_t *rng, int sw, uint8_t *out, int out
         if (len >= outmax) { e->overrun = true; break; }
         out[len++] = (uint8_t)t;
         cur_len = len;
-        vs_step(t);
+        if (e->step) e->step(e->ctx, t); else vs_step(t);
         if (e->after_step) e->after_step(e->ctx, t);
         last = t;
     }
